@@ -1,0 +1,13 @@
+//go:build verif
+// +build verif
+
+package leanhelixterm
+
+// Verification hooks (build tag "verif"). Add-only, read-only.
+
+import "github.com/orbs-network/lean-helix-go/services/termincommittee"
+
+// VerifTerm returns the in-committee term, or nil when the node is not in the committee of this height.
+func (lht *LeanHelixTerm) VerifTerm() *termincommittee.TermInCommittee {
+	return lht.termInCommittee
+}
